@@ -103,15 +103,15 @@ func concretise(c vt.Case, key string) *concrete {
 	}
 	for _, x := range vt.List(c["reqs"]) {
 		q := vt.Map(x)
-		req := metadata.DeletionRequest{}
-		jm := []any{}
+		// the case matcher goes first (order is irrelevant to the semantics; it lets the judge discard
+		// other inputs' requests after one matcher)
+		req := metadata.DeletionRequest{Matchers: metadata.Matchers{labels.MustNewMatcher(labels.MatchEqual, caseLabel, key)}}
+		jm := []any{map[string]any{"name": caseLabel, "type": "EQ", "alts": []string{key}}}
 		for _, y := range vt.List(q["matchers"]) {
 			m := vt.Map(y)
 			req.Matchers = append(req.Matchers, matcherOf(vt.Str(m["name"]), vt.Str(m["type"]), vt.Strs(m["alts"])))
 			jm = append(jm, map[string]any{"name": vt.Str(m["name"]), "type": vt.Str(m["type"]), "alts": vt.Strs(m["alts"])})
 		}
-		req.Matchers = append(req.Matchers, labels.MustNewMatcher(labels.MatchEqual, caseLabel, key))
-		jm = append(jm, map[string]any{"name": caseLabel, "type": "EQ", "alts": []string{key}})
 		ji := []any{}
 		for _, y := range vt.List(q["ivs"]) {
 			iv := vt.Map(y)
@@ -453,7 +453,7 @@ func TestC48(t *testing.T) {
 		}
 	}
 	flush()
-	for i, n := 0, vt.Pick(400, 4000); i < n; i++ {
+	for i, n := 0, vt.Pick(400, 2000); i < n; i++ {
 		add(randCase(rnd, false), 10)
 	}
 	flush()
